@@ -9,9 +9,16 @@
 (* goes on, so every field is judged on its own; the two re-export events are judged only when everything read   *)
 (* back before them was right (they cannot be right otherwise).  A trace that is not consumed to its end (unknown *)
 (* event, malformed record) is reported as STUCK by the postcondition - that is a harness error.                 *)
+(*   history trace : Build, then the actions done to ONE object (Export, SetApp, SetTz, ClearTz, SetKs, ClearKs, *)
+(*                  Reconfigure, Parse - Mbi.tla "the object's history"), each followed by what was observed:    *)
+(*                  after Export the header events above, Fresh (the bytes against those of a fresh object with  *)
+(*                  the current settings) and optionally the parse events; after Parse the parse events of the   *)
+(*                  new object.  An action event CHANGES the settings x every later event is judged against;      *)
+(*                  an action the R-spec does not offer in that state leaves the trace STUCK (harness error).     *)
 EXTENDS Mbi, Json, IOUtils
 Traces == ndJsonDeserialize(IOEnv.TRACE_FILE)
-VARIABLES tid, l, bad
+VARIABLES tid, l, bad,
+          last      \* history traces: the settings at the object's last export (Mbi.tla)
 T == Traces[tid].ev
 E == T[l]
 Is(e) == l <= Len(T) /\ E.ev = e
@@ -22,14 +29,14 @@ Rej == PrintT(<<"REJ", Traces[tid].id, l, Len(T), E.ev>>)
 \* judge one event: report if the clause fails, remember it, go on
 Judge(ok) == /\ (IF ok THEN TRUE ELSE Rej)          \* IF, not \/ : a disjunction inside an action is explored on both sides
              /\ bad' = (bad \/ ~ok)
-             /\ l' = l + 1 /\ UNCHANGED <<tid, cls, x>>
+             /\ l' = l + 1 /\ UNCHANGED <<tid, cls, x, last>>
 \* judged only on an intact prefix
 JudgeIfIntact(ok) == /\ (IF bad \/ ok THEN TRUE ELSE Rej)
                      /\ bad' = (bad \/ ~ok)
-                     /\ l' = l + 1 /\ UNCHANGED <<tid, cls, x>>
+                     /\ l' = l + 1 /\ UNCHANGED <<tid, cls, x, last>>
 
 TInit == /\ tid \in 1..Len(Traces) /\ l = 1 /\ bad = FALSE
-         /\ cls = Traces[tid].cls /\ x = Traces[tid].x
+         /\ cls = Traces[tid].cls /\ x = Traces[tid].x /\ last = NoExport
          /\ TLCSet(tid, 1)
 \* the case must be one the algebra speaks about (a failure here is the harness's fault)
 TBuild == Is("Build") /\ Judge(Modelled /\ InDomain(x) /\ HeaderDescribesOf(x) /\ RoundTripOf(x))
@@ -83,7 +90,23 @@ TParseMisc == Is("ParseMisc") /\ Judge(
 DiffsInside(ranges) == \A k \in 1..Len(E.diffs) : Inside(E.diffs[k], ranges)
 TReObj == Is("ReObj") /\ JudgeIfIntact(E.ok = TRUE /\ E.len = Sum(S) /\ DiffsInside(SigRange(x)))
 TReCfg == Is("ReCfg") /\ JudgeIfIntact(E.ok = TRUE /\ E.len = Sum(S) /\ DiffsInside(SigRange(x) \cup IskRange(x)))
-TNext == TBuild \/ TExpLen \/ TExpFlags \/ TExpW28 \/ TExpLoad \/ TExpLayout \/ TExpReloc \/ TExpManifest
+\* ---- the object's history: an action event moves the settings; guard and effect are the R-spec's (Offers / After)
+Act(name) == /\ Is(name) /\ Offers(x, last, E) /\ InDomain(After(x, last, E))
+             /\ x' = After(x, last, E) /\ last' = LastAfter(x, last, E)
+             /\ bad' = FALSE /\ l' = l + 1 /\ UNCHANGED <<tid, cls>>
+TExport == Act("Export")
+TSetApp == Act("SetApp")
+TSetTz == Act("SetTz")
+TClearTz == Act("ClearTz")
+TSetKs == Act("SetKs")
+TClearKs == Act("ClearKs")
+TReconfigure == Act("Reconfigure")
+TParse == Act("Parse")
+\* EVERY export of a history is the export of a fresh object holding the current settings: same length, the bytes differ at most inside
+\* signature fields (and what is computed over a signature that the fresh object had to make again)
+TFresh == Is("Fresh") /\ Judge(E.ok = TRUE /\ E.len = Sum(S) /\ DiffsInside(SigRange(x) \cup IskRange(x)))
+THist == TExport \/ TSetApp \/ TSetTz \/ TClearTz \/ TSetKs \/ TClearKs \/ TReconfigure \/ TParse \/ TFresh
+TNext == THist \/ TBuild \/ TExpLen \/ TExpFlags \/ TExpW28 \/ TExpLoad \/ TExpLayout \/ TExpReloc \/ TExpManifest
          \/ TParseOk \/ TParseApp \/ TParseTz \/ TParseWords \/ TParseKs \/ TParseReloc \/ TParseMisc \/ TReObj \/ TReCfg
 Constr == IF TLCGet(tid) < l THEN TLCSet(tid, l) ELSE TRUE
 Post == \A i \in 1..Len(Traces) :
